@@ -6,7 +6,7 @@ namespace Usual.C01
 open Finset
 
 /-- the counter of a limit chunk after `apply_memlimit(p, -d, _)`, `d ≥ 0` -/
-theorem applyLim_lcur_neg {rk : Nat → Nat} {s : State} (i : Inv rk s) (cfg : Cfg) (f : Nat) (t : Option Id)
+theorem applyLim_lcur_neg {rk : Nat → Nat} {s : State} (i : InvT rk s) (cfg : Cfg) (f : Nat) (t : Option Id)
     (d : Nat) (force : Bool) (s' : State) (h : applyLim cfg f s t (-(d : Int)) force = some s')
     (l : Nat) (lb : Obj) (hl : s.get l = some lb) :
     ∃ lb', s'.get l = some lb' ∧ lb'.kind = lb.kind ∧ lb'.parent = lb.parent ∧ lb'.size = lb.size ∧
@@ -76,7 +76,7 @@ theorem chargeUnder_congr {s s' : State} (hl : s'.heap.length = s.heap.length)
   · rw [if_pos hc, if_pos ⟨hc.1, this.2 hc.2⟩]
   · rw [if_neg hc, if_neg (fun h => hc ⟨h.1, this.1 h.2⟩)]
 
-theorem applyLim_size {rk : Nat → Nat} {s : State} (i : Inv rk s) (cfg : Cfg) (f : Nat) (t : Option Id)
+theorem applyLim_size {rk : Nat → Nat} {s : State} (i : InvT rk s) (cfg : Cfg) (f : Nat) (t : Option Id)
     (d : Int) (force : Bool) (s' : State) (h : applyLim cfg f s t d force = some s') (y : Nat) :
     (s'.get y).map (·.size) = (s.get y).map (·.size) := by
   obtain ⟨h1, h2⟩ := applyLim_char i cfg f t d force s' h y
@@ -84,29 +84,78 @@ theorem applyLim_size {rk : Nat → Nat} {s : State} (i : Inv rk s) (cfg : Cfg) 
   · rw [h1 hm]; cases s.get y <;> simp
   · rw [h2 hm]
 
+/-- both invariants only look at parent, kind, size, counters and flags -/
+def AFields (o : Obj) := (o.parent, o.kind, o.size, o.lcur, o.useLim, o.hasLim)
+
+theorem afields_get {a b : State} (h : ∀ j : Nat, (b.get j).map AFields = (a.get j).map AFields) {j : Nat} {o : Obj}
+    (hj : b.get j = some o) : ∃ o', a.get j = some o' ∧ o.parent = o'.parent ∧ o.kind = o'.kind ∧
+      o.size = o'.size ∧ o.lcur = o'.lcur ∧ o.useLim = o'.useLim ∧ o.hasLim = o'.hasLim := by
+  have := h j
+  rw [hj] at this
+  cases h2 : a.get j with
+  | none => rw [h2] at this; cases this
+  | some o' =>
+    rw [h2] at this
+    simp only [Option.map_some, Option.some.injEq, AFields, Prod.mk.injEq] at this
+    exact ⟨o', rfl, this.1, this.2.1, this.2.2.1, this.2.2.2.1, this.2.2.2.2.1, this.2.2.2.2.2⟩
+
+theorem afields_get' {a b : State} (h : ∀ j : Nat, (b.get j).map AFields = (a.get j).map AFields) {j : Nat} {o' : Obj}
+    (hj : a.get j = some o') : ∃ o, b.get j = some o ∧ o.parent = o'.parent ∧ o.kind = o'.kind ∧
+      o.size = o'.size ∧ o.lcur = o'.lcur ∧ o.useLim = o'.useLim ∧ o.hasLim = o'.hasLim := by
+  have := h j
+  rw [hj] at this
+  cases h2 : b.get j with
+  | none => rw [h2] at this; cases this
+  | some o =>
+    rw [h2] at this
+    simp only [Option.map_some, Option.some.injEq, AFields, Prod.mk.injEq] at this
+    exact ⟨o, rfl, this.1, this.2.1, this.2.2.1, this.2.2.2.1, this.2.2.2.2.1, this.2.2.2.2.2⟩
+
+theorem afields_parentOf {a b : State} (h : ∀ j : Nat, (b.get j).map AFields = (a.get j).map AFields) (y : Nat) :
+    parentOf b y = parentOf a y := by
+  unfold parentOf
+  have := h y
+  cases h1 : b.get y <;> cases h2 : a.get y <;> rw [h1, h2] at this <;> simp [AFields] at this ⊢
+  exact this.1
+
+theorem afields_size {a b : State} (h : ∀ j : Nat, (b.get j).map AFields = (a.get j).map AFields) (y : Nat) :
+    (b.get y).map (·.size) = (a.get y).map (·.size) := by
+  have := h y
+  cases h1 : b.get y <;> cases h2 : a.get y <;> rw [h1, h2] at this <;> simp [AFields] at this ⊢
+  exact this.2.2.1
+
 open Classical in
-/-- **accounting, release**: a chunk with nothing beneath it is taken out of the heap and
+/-- **accounting, release**: a chunk with nothing beneath it is taken out of the heap (state `s4`,
+which agrees with `s` minus `x` on parents, kinds, sizes, counters and flags) and
 `apply_memlimit(parent, -charge)` runs: every remaining limit chunk is exact again -/
-theorem acct_remove_leaf {rk : Nat → Nat} {s : State} (i : Inv rk s) (ac : AcctInv s) (cfg : Cfg)
+theorem acct_remove_leaf {rk : Nat → Nat} {s s4 : State} (i : InvT rk s) (ac : AcctInv s) (cfg : Cfg)
     (hfix : cfg.fixGone = true) (x : Nat) (xb : Obj) (hx : s.get x = some xb)
     (hleaf : ∀ y, parentOf s y ≠ some x)
-    (i4 : Inv rk (s.remove x)) (fl4 : FlagsInv (s.remove x)) (f : Nat) (s5 : State)
-    (ha : applyLim cfg f (s.remove x) xb.parent (-(totalSize xb.size : Int)) false = some s5)
+    (hg4 : ∀ j : Nat, (s4.get j).map AFields = ((s.remove x).get j).map AFields)
+    (hl4 : s4.heap.length = s.heap.length)
+    (i4 : InvT rk s4) (fl4 : FlagsInv s4) (f : Nat) (s5 : State)
+    (ha : applyLim cfg f s4 xb.parent (-(totalSize xb.size : Int)) false = some s5)
     (hoof : s5.oof = false) : AcctInv s5 := by
   intro l lb5 ctx hl5 hk5 hp5
   have hsh := applyLim_shapeEq _ _ _ _ _ _ _ ha
   have hlen := applyLim_length _ _ _ _ _ _ _ ha
-  obtain ⟨lb4, hl4, e1, -, -, e4, -, -⟩ := hsh.symm.get hl5
-  have hlx : l ≠ x := by intro e; subst e; simp at hl4
-  have hl : s.get l = some lb4 := by rw [get_remove] at hl4; simpa [Ne.symm hlx] using hl4
-  have hk : lb4.kind = .limit := by rw [e4]; exact hk5
-  have hp : lb4.parent = some ctx := by rw [e1]; exact hp5
+  obtain ⟨lb4, hl4', e1, -, -, e4, -, -⟩ := hsh.symm.get hl5
+  obtain ⟨lbr, hlr, f1, f2, -, f4, -, -⟩ := afields_get hg4 hl4'
+  have hlx : l ≠ x := by intro e; subst e; simp at hlr
+  have hl : s.get l = some lbr := by rw [get_remove] at hlr; simpa [Ne.symm hlx] using hlr
+  have hk4 : lb4.kind = .limit := by rw [e4]; exact hk5
+  have hp4 : lb4.parent = some ctx := by rw [e1]; exact hp5
+  have hk : lbr.kind = .limit := by rw [← f2]; exact hk4
+  have hp : lbr.parent = some ctx := by rw [← f1]; exact hp4
   obtain ⟨lb5', hl5', -, -, -, -, -, hcur⟩ :=
-    applyLim_lcur_neg i4 cfg f xb.parent (totalSize xb.size) false s5 ha l lb4 hl4
+    applyLim_lcur_neg i4 cfg f xb.parent (totalSize xb.size) false s5 ha l lb4 hl4'
   rw [hl5] at hl5'; cases hl5'
-  rw [hcur, ac l lb4 ctx hl hk hp]
+  rw [hcur, f4, ac l lbr ctx hl hk hp]
   -- the sum in the final state is the sum in the state without x
   rw [chargeUnder_congr hlen (parentOf_shapeEq hsh) (applyLim_size i4 cfg f _ _ _ s5 ha) ctx l]
+  have hcu4 : chargeUnder s4 ctx l = chargeUnder (s.remove x) ctx l :=
+    chargeUnder_congr (by rw [hl4, length_remove]) (afields_parentOf hg4) (afields_size hg4) ctx l
+  rw [hcu4]
   -- the sum with and without x
   have hxlt : x < s.heap.length := lt_of_get s x xb hx
   have hsplit : chargeUnder s ctx l = chargeUnder (s.remove x) ctx l +
@@ -126,7 +175,8 @@ theorem acct_remove_leaf {rk : Nat → Nat} {s : State} (i : Inv rk s) (ac : Acc
       · rw [if_neg hc, if_neg (fun h => hc ⟨h.1, han.1 h.2⟩)]
     · rw [if_neg (fun h => anc_remove_self x ctx h.2)]
   -- the chunks visited are those of the ancestors of x
-  have hvis : l ∈ limitsAbove cfg f (s.remove x) xb.parent ↔ Anc s ctx x := by
+  have hanc4 : ∀ a y, Anc s4 a y ↔ Anc (s.remove x) a y := fun a y => Anc.congr (afields_parentOf hg4)
+  have hvis : l ∈ limitsAbove cfg f s4 xb.parent ↔ Anc s ctx x := by
     constructor
     · intro hm
       cases hpar : xb.parent with
@@ -138,26 +188,27 @@ theorem acct_remove_leaf {rk : Nat → Nat} {s : State} (i : Inv rk s) (ac : Acc
       | some p =>
         rw [hpar] at hm
         obtain ⟨lb0, q, a1, a2, a3, a4⟩ := limitsAbove_anc i4 cfg f p l hm
-        rw [hl4] at a1; cases a1
-        rw [hp] at a3; cases a3
+        rw [hl4'] at a1; cases a1
+        rw [hp4] at a3; cases a3
         have hpo : parentOf s x = some p := by rw [parentOf_eq hx]; exact hpar
         have hpx : p ≠ x := fun e => hleaf x (e ▸ hpo)
         rcases a4 with rfl | h
         · exact Anc.parent hpo
-        · exact Anc.up hpo ((anc_remove x hleaf ctx p hpx).1 h)
+        · exact Anc.up hpo ((anc_remove x hleaf ctx p hpx).1 ((hanc4 ctx p).1 h))
     · intro han
       obtain ⟨p, hpo, hor⟩ := han.cases_parent
       have hpar : xb.parent = some p := by rw [← parentOf_eq hx]; exact hpo
       rw [hpar]
       have hpx : p ≠ x := fun e => hleaf x (e ▸ hpo)
       obtain ⟨pb, hpb, hpk, -⟩ := i.wf.parentLive x xb p hx hpar
-      have hpb4 : (s.remove x).get p = some pb := by rw [get_remove]; simp [Ne.symm hpx, hpb]
-      have hor' : ctx = p ∨ Anc (s.remove x) ctx p := by
+      have hpbr : (s.remove x).get p = some pb := by rw [get_remove]; simp [Ne.symm hpx, hpb]
+      obtain ⟨pb4, hpb4, -, g2, -⟩ := afields_get' hg4 hpbr
+      have hor' : ctx = p ∨ Anc s4 ctx p := by
         rcases hor with h | h
         · exact Or.inl h.symm
-        · exact Or.inr ((anc_remove x hleaf ctx p hpx).2 h)
-      exact limitsAbove_of_anc i4 fl4 cfg hfix f p pb hpb4 hpk
-        (by rw [← hpar]; exact applyLim_climbOK cfg f _ _ _ false s5 ha hoof) l lb4 ctx hl4 hk hp hor'
+        · exact Or.inr ((hanc4 ctx p).2 ((anc_remove x hleaf ctx p hpx).2 h))
+      exact limitsAbove_of_anc i4 fl4 cfg hfix f p pb4 hpb4 (by rw [g2]; exact hpk)
+        (by rw [← hpar]; exact applyLim_climbOK cfg f _ _ _ false s5 ha hoof) l lb4 ctx hl4' hk4 hp4 hor'
   rw [hsplit]
   by_cases han : Anc s ctx x
   · rw [if_pos (hvis.2 han), if_pos ⟨Ne.symm hlx, han⟩]; omega
